@@ -972,3 +972,166 @@ Proof.
   { intros k Hk. exists (pi' k). destruct (F21 k Hk) as [_ [_ [Hlt [_ Ik]]]]. split; [exact Hlt|exact Ik]. }
   intros i Hi. destruct (F12 i Hi) as [x [Ex [_ [E2 _]]]]. exists x. split; [exact Ex|exact E2].
 Qed.
+
+(** * 6. The statements at the level of the lattice (sequence of addSite calls) *)
+
+Lemma valid_site_map (calls : list site) (x : info) :
+  NoDup (labels calls) -> (valid (site_map calls) x <-> valid calls x).
+Proof.
+  intros Hnd. pose proof (site_map_perm calls Hnd) as HP. split.
+  - apply valid_perm. apply Permutation_sym. exact HP.
+  - apply valid_perm. exact HP.
+Qed.
+
+Lemma index_total_site_map (calls : list site) :
+  NoDup (labels calls) -> index_total (site_map calls) = index_total calls.
+Proof. intros Hnd. symmetry. apply index_total_perm. apply site_map_perm. exact Hnd. Qed.
+
+(** Everything C18 says about one index classification, in one statement: for every lattice
+    with distinct labels (any number of sites, any orbital and spin counts) and every ordering
+    mode for which the enumeration is [harmless], prepare() terminates normally and
+    - IndexSize = sum of orbitals * spins,
+    - getInfo is defined on 0..IndexSize-1, yields modes of the lattice, and getIndex undoes it,
+    - getIndex maps every mode of the lattice into 0..IndexSize-1 and getInfo undoes it,
+    - getIndex answers IndexSize for everything else, getInfo throws from IndexSize on. *)
+Lemma index_bijection (fixed order_spins : bool) (calls : list site) :
+  NoDup (labels calls) -> harmless fixed order_spins (site_map calls) ->
+  exists t, prepare_lattice fixed order_spins calls = Done t /\
+    IndexSize t = index_total calls /\
+    (forall i, i < IndexSize t ->
+               exists x, getInfo t i = Done x /\ valid calls x /\ getIndex t x = i) /\
+    (forall x, valid calls x -> getIndex t x < IndexSize t /\ getInfo t (getIndex t x) = Done x) /\
+    (forall x, ~ valid calls x -> getIndex t x = IndexSize t) /\
+    (forall i, IndexSize t <= i -> getInfo t i = Throws exWrongIndex).
+Proof.
+  intros Hnd Hh. pose proof (site_map_labels_NoDup calls Hnd) as HL.
+  destruct (prepare_total fixed order_spins (site_map calls) HL Hh) as [t Et].
+  exists t. unfold prepare_lattice. split; [exact Et|].
+  split.
+  { rewrite (proj1 (index_count _ _ _ t HL Hh Et)). apply index_total_site_map. exact Hnd. }
+  split.
+  { intros i Hi. destruct (getInfo_total _ _ _ t HL Hh Et i Hi) as [x [Ex Hv]].
+    exists x. split; [exact Ex|]. split; [apply (valid_site_map calls x Hnd); exact Hv|].
+    apply (getIndex_iff _ _ _ t HL Hh Et x i Hi). exact Ex. }
+  split.
+  { intros x Hv. apply (getInfo_getIndex _ _ _ t HL Hh Et). apply (valid_site_map calls x Hnd). exact Hv. }
+  split.
+  { intros x Hnv. apply (getIndex_unknown _ _ _ t HL Hh Et). intros Hv. apply Hnv.
+    apply (valid_site_map calls x Hnd). exact Hv. }
+  intros i Hi. apply getInfo_throws. exact Hi.
+Qed.
+
+(** the repaired loop: no condition on the lattice *)
+Lemma index_bijection_fixed (order_spins : bool) (calls : list site) :
+  NoDup (labels calls) ->
+  exists t, prepare_lattice true order_spins calls = Done t /\
+    IndexSize t = index_total calls /\
+    (forall i, i < IndexSize t ->
+               exists x, getInfo t i = Done x /\ valid calls x /\ getIndex t x = i) /\
+    (forall x, valid calls x -> getIndex t x < IndexSize t /\ getInfo t (getIndex t x) = Done x) /\
+    (forall x, ~ valid calls x -> getIndex t x = IndexSize t) /\
+    (forall i, IndexSize t <= i -> getInfo t i = Throws exWrongIndex).
+Proof. intros Hnd. apply index_bijection; [exact Hnd|]. left. reflexivity. Qed.
+
+(** the loops as written: site-major order always, spin-major order when the spin counts do
+    not increase along the label order of the sites *)
+Lemma index_bijection_as_written (order_spins : bool) (calls : list site) :
+  NoDup (labels calls) ->
+  order_spins = false \/ spins_nonincreasing (site_map calls) ->
+  exists t, prepare_lattice false order_spins calls = Done t /\
+    IndexSize t = index_total calls /\
+    (forall i, i < IndexSize t ->
+               exists x, getInfo t i = Done x /\ valid calls x /\ getIndex t x = i) /\
+    (forall x, valid calls x -> getIndex t x < IndexSize t /\ getInfo t (getIndex t x) = Done x) /\
+    (forall x, ~ valid calls x -> getIndex t x = IndexSize t) /\
+    (forall i, IndexSize t <= i -> getInfo t i = Throws exWrongIndex).
+Proof. intros Hnd Hc. apply index_bijection; [exact Hnd|]. right. exact Hc. Qed.
+
+(** * 7. The hypotheses are satisfiable (non-trivial values) *)
+Module Examples.
+  Import Strings.String.
+  Local Open Scope string_scope.
+
+  (** three sites of different shapes, added in an order that is not the label order *)
+  Definition ex_calls : list site := [mkSite "b" 2 1; mkSite "a" 1 3; mkSite "ab" 3 2].
+
+  Example ex_site_map : site_map ex_calls = [mkSite "a" 1 3; mkSite "ab" 3 2; mkSite "b" 2 1].
+  Proof. vm_compute. reflexivity. Qed.
+
+  Example ex_labels : NoDup (labels ex_calls).
+  Proof.
+    unfold ex_calls, labels. cbn [map s_label].
+    repeat constructor; cbn [In]; intros H; repeat destruct H as [H|H]; try discriminate H; exact H.
+  Qed.
+
+  (** spin counts 3, 2, 1 in label order: the `break` is harmless here even as written *)
+  Example ex_harmless_as_written : harmless false true (site_map ex_calls).
+  Proof.
+    right. right. rewrite ex_site_map. cbn [spins_nonincreasing s_spin In].
+    repeat split; try exact I; intros s' H; repeat destruct H as [H|H]; try (subst s'; cbn; lia); destruct H.
+  Qed.
+
+  Example ex_prepare : exists t, prepare_lattice false true ex_calls = Done t /\ IndexSize t = 11.
+  Proof. eexists. split; [vm_compute; reflexivity|reflexivity]. Qed.
+
+  (** hypotheses of the section [Table] lemmas, all at once, on the example *)
+  Example ex_table_hyps :
+    NoDup (labels (site_map ex_calls)) /\ harmless false true (site_map ex_calls) /\
+    exists t, prepare false true (site_map ex_calls) = Done t.
+  Proof.
+    split; [apply site_map_labels_NoDup; exact ex_labels|].
+    split; [exact ex_harmless_as_written|]. eexists. vm_compute. reflexivity.
+  Qed.
+
+  (** a valid and an invalid triple, a valid and an invalid index *)
+  Example ex_valid : valid ex_calls ("ab", 2, 1) /\ ~ valid ex_calls ("ab", 3, 0) /\ ~ valid ex_calls ("c", 0, 0).
+  Proof.
+    split; [exists (mkSite "ab" 3 2); cbn; repeat split; try lia; right; right; left; reflexivity|].
+    split; intros [s [Hs [Hl [Ho Hz]]]]; cbn in Hs, Hl, Ho, Hz;
+      repeat destruct Hs as [Hs|Hs]; try (subst s; cbn in *; try discriminate Hl; lia); destruct Hs.
+  Qed.
+
+  (** hypotheses of [spin_major_break_exact] with a lattice on each side of the condition *)
+  Example ex_break_exact_hyps :
+    (forall s, In s (site_map ex_calls) -> 1 <= s_orb s) /\ spins_nonincreasing (site_map ex_calls) /\
+    (forall s, In s witness_sites -> 1 <= s_orb s) /\ ~ spins_nonincreasing witness_sites.
+  Proof.
+    rewrite ex_site_map. split.
+    { intros s H. repeat destruct H as [H|H]; try (subst s; cbn; lia); destruct H. }
+    split.
+    { cbn [spins_nonincreasing s_spin In].
+      repeat split; try exact I; intros s' H; repeat destruct H as [H|H]; try (subst s'; cbn; lia); destruct H. }
+    split.
+    { intros s H. repeat destruct H as [H|H]; try (subst s; cbn; lia); destruct H. }
+    intros [H _]. specialize (H _ (or_introl eq_refl)). cbn in H. lia.
+  Qed.
+
+  (** relabelling a -> z, ab -> m, b -> c (changes the label order), calls reversed, other mode *)
+  Definition ex_f (l : label) : label :=
+    if l =? "a" then "z" else if l =? "ab" then "m" else if l =? "b" then "c" else l.
+  Definition ex_g (l : label) : label :=
+    if l =? "z" then "a" else if l =? "m" then "ab" else if l =? "c" then "b" else l.
+  Definition ex_calls2 : list site := rev (map (rename_site ex_f) ex_calls).
+
+  Example ex_rename_hyps :
+    NoDup (labels ex_calls) /\
+    (forall l, In l (labels ex_calls) -> ex_g (ex_f l) = l) /\
+    Permutation (map (rename_site ex_f) ex_calls) ex_calls2 /\
+    harmless true false (site_map ex_calls) /\ harmless true true (site_map ex_calls2) /\
+    (exists t1, prepare_lattice true false ex_calls = Done t1) /\
+    (exists t2, prepare_lattice true true ex_calls2 = Done t2).
+  Proof.
+    split; [exact ex_labels|]. split.
+    { intros l H. cbn in H. repeat destruct H as [H|H]; try (subst l; reflexivity); destruct H. }
+    split; [apply Permutation_rev|]. split; [left; reflexivity|]. split; [left; reflexivity|].
+    split; eexists; vm_compute; reflexivity.
+  Qed.
+
+  (** the induced permutation on this example, computed: site-major a,ab,b  ->  spin-major c,m,z *)
+  Example ex_perm_values :
+    match prepare_lattice true false ex_calls, prepare_lattice true true ex_calls2 with
+    | Done t1, Done t2 => map (index_perm t1 t2 ex_f) (seq 0 11) = [5; 9; 10; 2; 6; 3; 7; 4; 8; 0; 1]
+    | _, _ => False
+    end.
+  Proof. vm_compute. reflexivity. Qed.
+End Examples.
